@@ -10,6 +10,9 @@
 #      (solo) the history restricted to one document must give that document the same dumps;
 #      (file) bystander check on real PDF files (processMemoryFile, writeJSON, QPDFWriter, copyForeignObject);
 #      (thr)  N threads x independent jobs under ThreadSanitizer, outputs compared with the solo runs.
+# Environment knobs (experiments only): VERIF_C20_SKIP_THR=1 skips the ThreadSanitizer part (its first run builds
+# /repo a second time with -fsanitize=thread); VERIF_C20_MODEL=fixed compares the library with the model WITHOUT the
+# shared cells (validation of proposed_fixes/shared_static_null.diff on a scratch copy of /repo).
 import json, os, re, subprocess
 import common, pdfgen
 
@@ -406,9 +409,9 @@ def part_thr(chk):
     nthr = 4
     quick = chk.tier == "quick"
     runs = []
-    for k in range(5 if quick else 60):
+    for k in range(5 if quick else 200):
         runs.append(("clean", chk.seed * 1000 + k, 6 if quick else 12))
-    for k in range(3 if quick else 20):
+    for k in range(3 if quick else 60):
         runs.append(("nulls", chk.seed * 1000 + 500 + k, 6 if quick else 12))
 
     def one(idx):
@@ -515,7 +518,13 @@ def part_file(chk, drv):
             nev += 1
             d6 = d6 or op.startswith("makeind-item:null")
             if op.startswith(("addpage-from:", "copyforeign-from:")) and not op.endswith(("!L", "!R")):
-                copied.add((int(f[1]), op.split(":")[1]))      # (destination, source)
+                dst, src = int(f[1]), op.split(":")[1]         # (destination, source) - kept transitively closed:
+                copied.add((dst, src))                         # a copy of a copy still pulls its data through the chain
+                for (d2, s2) in list(copied):
+                    if str(d2) == src:
+                        copied.add((dst, s2))
+                    if s2 == str(dst):
+                        copied.add((d2, src))
             kinds[op.split(":")[0]] = kinds.get(op.split(":")[0], 0) + 1
             for j, (b, a) in enumerate(zip(prev, hashes)):
                 name = "a freshly opened file" if j == len(hashes) - 1 else "document %d" % j
@@ -555,7 +564,7 @@ def replay(chk, rep):
     drv = os.path.join(common.DRV, "drv")
     runner = os.path.join(common.EXTRACT, "model_runner")
     line = rep.get("replay")
-    print(json.dumps({k: v for k, v in rep.items() if k not in ("implementation", "model")}, indent=1)[:3000])
+    print(json.dumps({k: v for k, v in rep.items() if k not in ("implementation", "model", "report")}, indent=1)[:3000])
     if line and line.startswith("iso "):
         i = common.run_lines(drv, [line])[0]
         m = common.run_lines(runner, [line])[0]
@@ -565,4 +574,20 @@ def replay(chk, rep):
         print("model         :", m[:2000])
         print("frame violations:", bad[:3] if bad else bad)
         return 1 if (bad or strip_hash(i) != m) else 0
+    if line and line.startswith("isofile "):
+        out = common.run_lines(drv, [line])[0]
+        print("\n".join(out.split("#")))
+        return 0
+    if line and line.startswith("thr "):
+        common.build_repo("tsan")
+        tsan = common.build_drv("tsan")
+        f = line.split(" ")
+        os.makedirs(f[4], exist_ok=True)
+        make_pdfs(os.path.dirname(f[4]))
+        env = {"TSAN_OPTIONS": "halt_on_error=0 exitcode=0 suppressions=%s" % os.path.join(common.VERIF, "harness", "tsan_c20.supp")}
+        p = subprocess.run(["bash", "-c", "exec " + tsan], input=(line + "\n").encode(), stdout=subprocess.PIPE, stderr=subprocess.PIPE,
+                           env=dict(os.environ, **env))
+        print(p.stdout.decode("latin-1")[:2000])
+        print(p.stderr.decode("latin-1")[:6000])
+        return 1 if (b" diff=0 " not in p.stdout or b"WARNING: ThreadSanitizer" in p.stderr) else 0
     return 0
